@@ -161,8 +161,15 @@ func TestC05(t *testing.T) {
 		n := rapid.IntRange(3, cfg.MaxSteps).Draw(rt, "steps")
 		failedThenOK := false
 		sawFailure := false
+		prevFailed := false
 		for i := 0; i < n; i++ {
 			op := mixedOp(rt, nm, cfg, 14, 22)
+			// a truncation DIRECTLY after a failed operation (whatever the failed operation left queued must not be
+			// written by the next writer)
+			if prevFailed && rapid.IntRange(0, 2).Draw(rt, "truncafterfail") == 0 {
+				main := nm.LM.M.MainChain()
+				op = hx.NOp{Op: "truncate", Target: main[len(main)-1-rapid.IntRange(0, minInt(2, len(main)-1)).Draw(rt, "truncback")], Expect: "truncate-right-after-failure"}
+			}
 			// follow-ups that depend on a stored but state-invalid block: walk into it, build on it
 			if inv := lastInvalidStored(nm); inv >= 0 && rapid.IntRange(0, 9).Draw(rt, "followup") < 4 {
 				switch rapid.IntRange(0, 2).Draw(rt, "fukind") {
@@ -208,6 +215,7 @@ func TestC05(t *testing.T) {
 			if failedNow {
 				sawFailure = true
 			}
+			prevFailed = failedNow
 			if op.Expect != "" {
 				cs.Label("candidate:" + op.Expect + ":" + nm.LastOutcome)
 			}
